@@ -35,6 +35,9 @@ STRENGTHENED = {
     "C19-agent4-3": "would have been MISSED (alns weights were never passed); caught after caller-supplied weight lists, shared by the runs of a case, were added",
     "C12-agent4-2": "would have been MISSED (weights were multiples of 1/4); caught after the tiny dyadic weight mode (multiples of 2^-40) was added",
     "C09-agent4-1": "MISSED at first, and still missed after a first attempt (a 1e9 arc next to costs -3..6 rarely matters); caught after penalty instances draw their other costs from -10..20",
+    "C02-agent4-2": "would have been MISSED (clauses were lists or tuples); caught after clause rows / the whole formula are also passed as one-shot iterators",
+    "C02-agent4-3": "would have been MISSED; caught after assumptions are also passed as a generator",
+    "C17-agent4-1": "would have been MISSED (lists were shared between the variants of a case but never edited); caught after a second instance is solved through the same list objects edited in place",
     "C17-agent-3": "MISSED at first (only integer roll widths were generated); caught after fractional roll widths were added",
 }
 WHAT = {}
